@@ -3,7 +3,7 @@
     models are written with (Model/Matmul.v [tile_wr]: row r = i + ii*R + n of A at r*K + k, row k of
     B at k*N + j + v*W, result at r*N + j + v*W; Model/Permute.v [transpose_wrs]: out[(j+jj)*M + i]
     from a[(i+l)*N + j + jj]).  Array ids: 0 = a, 1 = b (out for transpose), 2 = c (pack_a), 3 = pack_out. *)
-From Coq Require Import Arith List Lia.
+From Coq Require Import Arith List Lia Bool.
 From FastorV Require Import Gen.GeneratedAccess.
 Import ListNotations.
 
@@ -142,3 +142,144 @@ Proof. reflexivity. Qed.
     path (a view's first element and row pitch are arbitrary) *)
 Lemma gen_views_never_aligned : forallb negb gen_views_is_aligned = true /\ length gen_views_is_aligned = 16.
 Proof. split; reflexivity. Qed.
+
+(** * tensor/TensorAssignment.h, TensorInplaceOperators.h: every elementwise assignment to a tensor.
+    The translator accepts the five trivial_assign*(dst, expression) functions only in the shape the model
+    [Model.Expr.assign] is written in (vector loop over [0, ROUND_DOWN(n,W)) step W at &_data[i], scalar
+    remainder loop to n at _data[i], one scalar loop for boolean expressions) and reports the operator each of
+    the three loops applies; here: all three apply the operator the function is named after, so the single
+    [aop] argument of the model stands for all of them. *)
+Definition model_trivial_assign_expr : list (nat * nat * nat * nat) := map (fun o => (o, o, o, o)) (seq 0 5).
+Lemma gen_trivial_assign_expr_eq : gen_trivial_assign_expr = model_trivial_assign_expr.
+Proof. reflexivity. Qed.
+
+(** the same for a number on the right-hand side; the only overload whose loops do not apply the operator it is
+    named after is the division by a non-integral number, which broadcasts the reciprocal T(1)/(T)num and
+    multiplies (the documented reciprocal-multiply: one extra rounding), and it is restricted to non-integral
+    numbers; integral numbers divide *)
+Lemma gen_trivial_assign_scalar_ok :
+  forallb (fun e : nat * nat * nat * bool * nat => let '(op, vop, sop, recip, restr) := e in
+             (vop =? sop) &&
+             (if recip then (op =? 4) && (vop =? 3) && (restr =? 2) else (vop =? op))) gen_trivial_assign_scalar = true /\
+  map (fun e : nat * nat * nat * bool * nat => let '(op, _, _, _, _) := e in op) gen_trivial_assign_scalar = [0; 1; 2; 3; 4; 4] /\
+  existsb (fun e : nat * nat * nat * bool * nat => let '(op, vop, _, recip, restr) := e in (op =? 4) && (vop =? 4) && negb recip && (restr =? 1)) gen_trivial_assign_scalar = true.
+Proof. repeat split. Qed.
+
+(** Tensor::operator op= calls assign_op, and assign_op(dst, tensor | number) calls trivial_assign_op: the
+    operator is preserved along the chain, each forwards its own argument (checked by the translator), and
+    every compound operator is present for expressions and for numbers *)
+Lemma gen_tensor_assign_dispatch_ok :
+  forallb (fun e : nat * nat * nat => let '(_, op, called) := e in op =? called) gen_tensor_assign_dispatch = true /\
+  map (fun e : nat * nat * nat => let '(_, op, _) := e in op) (filter (fun e : nat * nat * nat => let '(k, _, _) := e in k =? 0) gen_tensor_assign_dispatch) = [1; 2; 3; 4; 1; 2; 3; 4] /\
+  map (fun e : nat * nat * nat => let '(_, op, _) := e in op) (filter (fun e : nat * nat * nat => let '(k, _, _) := e in k =? 1) gen_tensor_assign_dispatch) = [0; 1; 2; 3; 4; 0; 1; 2; 3; 4].
+Proof. repeat split. Qed.
+
+(** * The four arithmetic expression nodes as compiled: expressions/binary_ops/binary_arithmetic_ops.h (the macro
+    FASTOR_MAKE_BINARY_ARITHMETIC_OPS expanded by the translator for Add, Sub, Mul) and binary_div_op.h (Div) -
+    the definitions expressions.h includes; binary_{add,sub,mul}_op.h are not compiled.
+    Every one of the 72 evaluator overloads (4 nodes x {eval, eval_s} x {(i), (i,j)} + {teval, teval_s} x (as),
+    each for (expression, expression), (number, expression), (expression, number)) returns
+    [left OP right] with OP the node's own operator, the left operand taken from _lhs and the right from _rhs
+    (never swapped: the translator only accepts that order), an operand being the converted number exactly in the
+    overload selected for a number on that side, and both operands evaluated by the function's own evaluator at
+    the function's own arguments - which is what [eval_s] / [eval_v] of Model/Expr.v do at an [EBin] node. *)
+Definition binop_node_ok (e : nat * nat * nat * bool * bool * nat * bool * bool * bool) : bool :=
+  let '(node, fn, args, gl, gr, op, lnum, rnum, same) := e in
+  (op =? node) && Bool.eqb gl lnum && Bool.eqb gr rnum && same && negb (gl && gr).
+Definition binop_expected : list (nat * nat * nat * bool * bool) :=
+  flat_map (fun node => flat_map (fun fa : nat * nat => flat_map (fun g : bool * bool => [(node, fst fa, snd fa, fst g, snd g)])
+              [(false, false); (true, false); (false, true)])
+              [(0, 1); (1, 1); (0, 2); (1, 2); (2, 3); (3, 3)]) [1; 2; 3; 4].
+Definition binop_key (e : nat * nat * nat * bool * bool * nat * bool * bool * bool) : nat * nat * nat * bool * bool :=
+  let '(node, fn, args, gl, gr, _, _, _, _) := e in (node, fn, args, gl, gr).
+Definition key_eqb (a b : nat * nat * nat * bool * bool) : bool :=
+  let '(a1, a2, a3, a4, a5) := a in let '(b1, b2, b3, b4, b5) := b in
+  (a1 =? b1) && (a2 =? b2) && (a3 =? b3) && Bool.eqb a4 b4 && Bool.eqb a5 b5.
+Lemma gen_binop_nodes_ok :
+  forallb binop_node_ok gen_binop_nodes = true /\
+  length gen_binop_nodes = 72 /\
+  forallb (fun k => existsb (fun e => key_eqb k (binop_key e)) gen_binop_nodes) binop_expected = true.
+Proof. repeat split. Qed.
+
+(** * expressions/unary_ops/unary_math_ops.h: the elementwise math nodes.  One macro defines every node; its six
+    evaluators - as translated - apply SIMD_OP in eval / teval and SCALAR_OP in eval_s / teval_s to the operand
+    evaluated by the same evaluator at the same position (the [EUn] case of [eval_v] / [eval_s]); and in every
+    instantiation the vector operation is the function itself and the scalar operation its std:: namesake
+    (unary plus: nothing, unary minus: -, sqrt: Fastor's own sqrts), node names are distinct, and every
+    specialised assignment re-applies the operation of the node it is declared for. *)
+From Coq Require Import String.
+Local Open Scope string_scope.
+Lemma gen_unary_node_evaluators_ok :
+  gen_unary_node_evaluators = [(0, 0, 0, true); (1, 1, 1, true); (0, 0, 0, true); (1, 1, 1, true); (2, 0, 2, true); (3, 1, 3, true)]%nat.
+Proof. reflexivity. Qed.
+Definition unary_row_ok (r : string * string * string * string) : bool :=
+  let '(fn, simd, scal, st) := r in
+  if String.eqb fn "operator+" then String.eqb simd "" && String.eqb scal ""
+  else if String.eqb fn "operator-" then String.eqb simd "-" && String.eqb scal "-"
+  else String.eqb simd fn && (String.eqb scal ("std::" ++ fn) || (String.eqb fn "sqrt" && String.eqb scal "sqrts")).
+Fixpoint distinct (l : list string) : bool :=
+  match l with [] => true | x :: t => negb (existsb (String.eqb x) t) && distinct t end.
+Lemma gen_unary_nodes_ok :
+  forallb unary_row_ok gen_unary_nodes = true /\
+  distinct (map (fun r : string * string * string * string => let '(fn, _, _, _) := r in fn) gen_unary_nodes) = true /\
+  distinct (map (fun r : string * string * string * string => let '(_, _, _, st) := r in st) gen_unary_nodes) = true /\
+  (30 <= List.length gen_unary_nodes)%nat /\
+  forallb (fun a : string * string * string => let '(op, name, kind) := a in
+             existsb (fun r : string * string * string * string => let '(_, simd, _, st) := r in String.eqb st name && String.eqb simd op) gen_unary_nodes)
+          gen_unary_node_assignments = true.
+Proof. repeat split. vm_compute. repeat constructor. Qed.
+Local Close Scope string_scope.
+
+(** * The comparison / logical nodes (binary_cmp_ops.h: one macro, eight instantiations) and the free functions
+    that build the arithmetic and comparison nodes.  Every evaluator overload of the comparison macro returns
+    [left OP right] with the macro's own OP (the translator accepts nothing else), left from _lhs, right from
+    _rhs, a number exactly where selected for one, both sides through the function's own evaluator; each
+    instantiation pairs an operator with its node name; and every [operator OP(l, r)] builds its node from
+    (l, r) in that order. *)
+Definition cmp_eval_ok (e : nat * nat * bool * bool * bool * bool * bool) : bool :=
+  let '(fn, args, gl, gr, lnum, rnum, same) := e in Bool.eqb gl lnum && Bool.eqb gr rnum && same && negb (gl && gr).
+Definition cmp_key (e : nat * nat * bool * bool * bool * bool * bool) : nat * nat * nat * bool * bool :=
+  let '(fn, args, gl, gr, _, _, _) := e in (0, fn, args, gl, gr).
+Lemma gen_cmp_nodes_ok :
+  forallb cmp_eval_ok gen_cmp_node_evaluators = true /\
+  forallb (fun k : nat * nat * nat * bool * bool => let '(_, fn, args, gl, gr) := k in
+             existsb (fun e => key_eqb (0, fn, args, gl, gr) (cmp_key e)) gen_cmp_node_evaluators)
+          (filter (fun k : nat * nat * nat * bool * bool => let '(node, _, _, _, _) := k in node =? 1) binop_expected) = true /\
+  List.length gen_cmp_node_evaluators = 18 /\
+  gen_cmp_nodes = [("==", "EQ"); ("!=", "NEQ"); ("<", "LT"); (">", "GT"); ("<=", "LE"); (">=", "GE"); ("&&", "AND"); ("||", "OR")]%string /\
+  forallb (fun f : bool * bool * bool => let '(ln, rn, ordered) := f in ordered && negb (ln && rn)) (gen_cmp_functions ++ gen_binop_functions) = true /\
+  List.length gen_cmp_functions = 4 /\ List.length gen_binop_functions = 8.
+Proof. repeat split. Qed.
+
+(** * expressions/linalg_ops: how a lazy linear-algebra node is assigned (C09).
+    Unary nodes (trans, ctrans, adj, cof, inv): the translator accepts only "evaluate the operand once; plain
+    assignment computes straight into dst; a compound assignment computes into a fresh local and applies
+    trivial_assign_op(dst, local)"; here: the operator applied is the one the function is named after, for all
+    5 x 5 functions.  Products A % B: operands in order, an operand is copied into a tensor first exactly when
+    the overload is selected for a non-tensor, and the update the chosen dispatcher performs
+    (out = P, out = alpha P + beta out, out *= P, out /= P) is the operator's update of the old value by the
+    product P - for every old value and every P. *)
+From Coq Require Import ZArith.
+Lemma gen_lazy_unary_assign_ok :
+  forallb (fun e : nat * nat * nat => let '(_, op, called) := e in op =? called) gen_lazy_unary_assign = true /\
+  map (fun e : nat * nat * nat => let '(node, op, _) := e in (node, op)) gen_lazy_unary_assign
+  = flat_map (fun node => map (fun op => (node, op)) (seq 0 5)) (seq 0 5).
+Proof. split; reflexivity. Qed.
+
+Definition op_update (op : nat) (old p : Z) : Z :=
+  match op with 0 => p | 1 => (old + p)%Z | 2 => (old - p)%Z | 3 => (old * p)%Z | _ => Z.quot old p end.
+Definition dispatcher_update (disp : nat) (alpha beta old p : Z) : Z :=
+  match disp with 0 => p | 1 => (alpha * p + beta * old)%Z | 2 => (old * p)%Z | _ => Z.quot old p end.
+Definition lazy_matmul_entry_ok (e : nat * bool * bool * bool * bool * nat * Z * Z) : Prop :=
+  let '(op, lt, rt, sa, sb, disp, alpha, beta) := e in
+  sa = negb lt /\ sb = negb rt /\ forall old p : Z, dispatcher_update disp alpha beta old p = op_update op old p.
+Lemma gen_lazy_matmul_assign_ok :
+  Forall lazy_matmul_entry_ok gen_lazy_matmul_assign /\
+  map (fun e : nat * bool * bool * bool * bool * nat * Z * Z => let '(op, lt, rt, _, _, _, _, _) := e in (op, lt, rt)) gen_lazy_matmul_assign
+  = flat_map (fun op => map (fun g : bool * bool => (op, fst g, snd g)) [(true, true); (false, true); (true, false); (false, false)]) (seq 0 5).
+Proof.
+  split; [| reflexivity].
+  unfold gen_lazy_matmul_assign.
+  repeat (apply Forall_cons; [repeat split; intros old p; cbn [dispatcher_update op_update]; ring |]).
+  apply Forall_nil.
+Qed.
